@@ -437,7 +437,13 @@ fn build_with(seed: u64, variant: &str, drops: &str) -> Option<Built> {
             "#if __HLSL_VERSION >= 2021 && defined(__HLSL_VERSION)\n#define VERSION_OK 1\n#else\n#define VERSION_OK 0\n#endif\n#if VERSION_OK\n{}#else\nerror version\n#endif\n",
             src
         ),
-        "pp-dead-garbage" => insert_lines(&src, mid_top, "#if 0\nvoid broken( { ) ) 12 + ;\n#elif defined(NOT_DEFINED_ANYWHERE)\nalso broken )\n#endif"),
+        // since fix ed75afa a skipped block may also hold lines that start with # but not with a directive name; they
+        // name the target macros here: inactive text must not matter on any target
+        "pp-dead-garbage" => insert_lines(
+            &src,
+            mid_top,
+            "#if 0\nvoid broken( { ) ) 12 + ;\n#3 RSSL_TARGET_MSL\n#while RSSL_TARGET_HLSL\n#frobnicate RSSL_TARGET_MSL\n#elif defined(NOT_DEFINED_ANYWHERE)\nalso broken )\n# ( RSSL_TARGET_HLSL\n#endif",
+        ),
         "unbounded" => {
             decls.push(DeclDesc { name: "g_unbounded".into(), kind: "Texture2D".into(), len: "*".into(), ss: false });
             insert_lines(&src, ff, "Texture2D<float4> g_unbounded[];")
